@@ -283,9 +283,13 @@ def main(mod, argv=None):
            'aborted': {}, 'samples': [], 'abort_examples': {}, 'choices_total': 0, 'digest': 0}
     harness = None
     ctxmp = multiprocessing.get_context('fork')
+    fast_fail = bool(os.environ.get('VERIF_FAST_FAIL'))
+    known_ff = load_known(mod.ID)
     with ProcessPoolExecutor(max_workers=workers, mp_context=ctxmp) as ex:
         futs = [ex.submit(_worker, (mod.__name__, seed, c, deadline)) for c in chunks]
         for f in as_completed(futs):
+            if f.cancelled():
+                continue
             try:
                 out = f.result()
             except Exception as e:      # noqa: BLE001 - dead worker / timeout
@@ -304,6 +308,9 @@ def main(mod, argv=None):
             for kk, v in out['abort_examples'].items():
                 agg['abort_examples'].setdefault(kk, v)
             agg['violations'] += out['violations']
+            if fast_fail and any(match_known(v['info']['sig'], known_ff) is None for v in out['violations']):
+                for g in futs:
+                    g.cancel()          # sensitivity runs only need the first fresh violation
             if len(agg['samples']) < 3:
                 agg['samples'] += out['samples'][:3 - len(agg['samples'])]
     wall = time.time() - t0
